@@ -3,7 +3,7 @@ NOTE = ("Trusted: Go type checker, go/ssa, dominators, VTA over-approximation of
         "Decides structural necessary conditions for ALL inputs; does not prove the behaviour (value-level clauses are listed as not decided in the evidence).")
 
 claim("C08", "struct-copy correspondence + path enumeration of the nested-array arm (go/ssa)",
-      "For every input: the per-dimension query copy takes each field from the source's same field (WHERE, select list, data, options present), and the []any arm of exec sets copy.from to the inner array, propagates the nested error and appends exactly one nested result. A violated instance breaks C08 for some document; passing does not prove result equality.",
+      "For every input: the mix top-level function and its callees write only into storage they allocate (ownership analysis); the per-dimension query copy takes each field from the source's same field (WHERE, select list, data, options present), and the []any arm of exec sets copy.from to the inner array, propagates the nested error and appends exactly one nested result. A violated instance breaks C08 for some document; passing does not prove result equality.",
       NOTE, "DESIGN.md 2/C08")
 
 claim("C01", "decision-table extraction over finite abstract domains (sign of Compare, operand truth, operator enum) + per-iteration path counting of the filter loop + term-shape check of the LIKE translation (go/ssa)",
@@ -16,6 +16,10 @@ claim("C05", "guarded-index prover over dominating branch facts (len, not cap) +
 claim("C15", "decision table over order classes + type-lattice check of every conversion on the comparison path, per generic instantiation (go/ssa with instantiated generics)",
       "For every input: every return of Compare/Cmp[T]/compare[T] (all 12+12 instantiations) is in {-1,0,1} or strings.Compare; Cmp[T] is the trichotomy of the two values it compares; both operands are converted exactly (no float->int, signed->unsigned, narrowing) into one comparison type D for all 12x12 (T,S) pairs; dispatch covers all 12 numeric types on both sides with operands in order; text comparisons put the left operand first. Antisymmetry/transitivity follow by argument from these, they are not computed on values.",
       NOTE, "DESIGN.md 2/C15")
+
+claim("C11", "inclusion-based (Andersen-style, field-based, context-insensitive) may-alias / ownership analysis over the whole module: every write site classified by the abstract objects its target may denote (go/ssa + VTA)",
+      "For every input and every failure point: no map update, delete, element store, copy, maps.Copy, sort or append-onto-existing-storage site in package genql can target the caller's document (the abstract object seeded at the data parameters of New, Prepare and ExecReader, closed under reachability), except the temporary <- marker when the same function immediately defers the delete of the same key (restored on every exit incl. errors and panics). Over-approximates aliasing; assumes user functions do not mutate their arguments.",
+      NOTE, "DESIGN.md 2/C11")
 
 _pending = "rule set for this property is not implemented yet in this round (see DESIGN.md section 2 for the planned structural rules)"
 for p in ["C01","C02","C03","C04","C05","C06","C07","C09","C10","C11","C12","C13","C14","C15","C16","C17","C18","C19","C20"]:
